@@ -66,7 +66,7 @@ Lemma gmap_with_core s h hd pl its :
   gmap (with_core s (h, hd, pl) its) = gm (encv (vals s)) hd (ptr (last s)).
 Proof. reflexivity. Qed.
 
-Lemma sheap_with_core s h hd pl its : sheap (with_core s (h, hd, pl) its) = gheap pl h.
+Lemma sheap_with_core lg s h hd pl its : sheap lg (with_core s (h, hd, pl) its) = gheap lg pl h.
 Proof. reflexivity. Qed.
 
 (* walking from a state with counters within B *)
@@ -104,6 +104,8 @@ Definition first_out (k : Z) (ok : bool) : out := OutFirst (if ok then Some k el
 
 Section Run.
 
+Variable lg : list Z.   (* the log array: untouched by the map code *)
+
 Variable pool_Put : Z -> Z -> M unit.
 Variable pool_Get : option nat -> Z -> M Z.
 Hypothesis Hput : put_spec pool_Put.
@@ -113,12 +115,12 @@ Hypothesis Hget : get_spec pool_Get.
 
 Lemma S_iterator s name B : winv B s -> B + 1 <= 2 ^ 62 ->
   exists s1, i_iterator s name = IMapBase.Ok (s1, OutUnit) /\
-    Gen.Map_Iterator (gmap s) (sheap s) = Ok (enc_it (head s), sheap s1) /\
+    Gen.Map_Iterator (gmap s) (sheap lg s) = Ok (enc_it (head s), sheap lg s1) /\
     gmap s1 = gmap s /\ iters s1 = (name, head s) :: iters s /\ allocs s1 = allocs s /\
     winv (B + 1) s1.
 Proof.
   intros (W & Hi & R & HB) Hb. pose proof W as ((C & Hhd & Hpl) & Hl & Hv).
-  rewrite (gen_Iterator_refines s name B W R ltac:(lia)).
+  rewrite (gen_Iterator_refines lg s name B W R ltac:(lia)).
   unfold i_iterator. rewrite get_ok by exact Hhd. cbn [IMapBase.bind lift fst].
   eexists. split; [reflexivity|]. split; [reflexivity|]. split; [reflexivity|]. split; [reflexivity|].
   split; [reflexivity|]. pose proof (R _ Hhd) as Rh.
@@ -130,15 +132,15 @@ Qed.
 Lemma S_hasnext s name p B : winv B s -> B + 1 <= 2 ^ 62 -> alookup name (iters s) = Some p ->
   match i_hasnext s name with
   | IMapBase.Ok (s', o) => exists p' b,
-      Gen.mapIterator_HasNext pool_Put (gmap s) (enc_it p) (sheap s) = Ok ((gmap s', enc_it p', b), sheap s') /\
+      Gen.mapIterator_HasNext pool_Put (gmap s) (enc_it p) (sheap lg s) = Ok ((gmap s', enc_it p', b), sheap lg s') /\
       o = OutBool b /\ iters s' = aset name p' (iters s) /\ allocs s' = allocs s /\ winv (B + 1) s'
-  | IMapBase.Panic => Gen.mapIterator_HasNext pool_Put (gmap s) (enc_it p) (sheap s) = GoPanic
+  | IMapBase.Panic => Gen.mapIterator_HasNext pool_Put (gmap s) (enc_it p) (sheap lg s) = GoPanic
   | IMapBase.NoFuel => True
   end.
 Proof.
   rewrite two62'. intros Wi Hb Ea. pose proof Wi as (W & Hi & R & HB). pose proof W as (Wc & Hl & Hv).
   pose proof (alookup_in _ _ _ _ Hi Ea) as Hp.
-  pose proof (gen_HasNext_refines pool_Put Hput (encv (vals s)) (ptr (last s)) (heap_of s) (head s) (pool s) p
+  pose proof (gen_HasNext_refines lg pool_Put Hput (encv (vals s)) (ptr (last s)) (heap_of s) (head s) (pool s) p
                 (- B - 1) B Wc Hp (refs_rng2 B (heap_of s) p R) ltac:(lia) ltac:(lia)) as G.
   pose proof (i_getvalue_pres (heap_of s) (head s) (pool s) p (- B - 1) B) as P.
   unfold i_hasnext, core_of. rewrite Ea. cbn [deref IMapBase.bind].
@@ -154,15 +156,15 @@ Qed.
 Lemma S_next s name p B : winv B s -> B + 1 <= 2 ^ 62 -> alookup name (iters s) = Some p ->
   match i_itnext s name with
   | IMapBase.Ok (s', o) => exists p' e ok,
-      Gen.mapIterator_Next pool_Put (gmap s) (enc_it p) (sheap s) = Ok ((gmap s', enc_it p', e, ok), sheap s') /\
+      Gen.mapIterator_Next pool_Put (gmap s) (enc_it p) (sheap lg s) = Ok ((gmap s', enc_it p', e, ok), sheap lg s') /\
       o = next_out e ok /\ iters s' = aset name p' (iters s) /\ allocs s' = allocs s /\ winv (B + 1) s'
-  | IMapBase.Panic => Gen.mapIterator_Next pool_Put (gmap s) (enc_it p) (sheap s) = GoPanic
+  | IMapBase.Panic => Gen.mapIterator_Next pool_Put (gmap s) (enc_it p) (sheap lg s) = GoPanic
   | IMapBase.NoFuel => True
   end.
 Proof.
   rewrite two62'. intros Wi Hb Ea. pose proof Wi as (W & Hi & R & HB). pose proof W as (Wc & Hl & Hv).
   pose proof (alookup_in _ _ _ _ Hi Ea) as Hp.
-  pose proof (gen_Next_refines pool_Put Hput (encv (vals s)) (ptr (last s)) (heap_of s) (head s) (pool s) p
+  pose proof (gen_Next_refines lg pool_Put Hput (encv (vals s)) (ptr (last s)) (heap_of s) (head s) (pool s) p
                 (- B - 1) B Wc Hp (refs_rng2 B (heap_of s) p R) ltac:(lia) ltac:(lia)) as G.
   pose proof (i_getvalue_pres (heap_of s) (head s) (pool s) p (- B - 1) B) as P.
   unfold i_itnext, core_of. rewrite Ea. cbn [deref IMapBase.bind]. unfold nxt_rel in G.
@@ -185,16 +187,16 @@ Qed.
 Lemma S_close s name p B : winv B s -> B + 1 <= 2 ^ 62 -> alookup name (iters s) = Some p ->
   match i_close s name with
   | IMapBase.Ok (s', o) =>
-      Gen.mapIterator_Close pool_Put (gmap s) (enc_it p) (sheap s) =
-        Ok ((gmap s', Gen.mk_mapIterator 0, ENil), sheap s') /\
+      Gen.mapIterator_Close pool_Put (gmap s) (enc_it p) (sheap lg s) =
+        Ok ((gmap s', Gen.mk_mapIterator 0, ENil), sheap lg s') /\
       o = OutUnit /\ iters s' = aremove name (iters s) /\ allocs s' = allocs s /\ winv (B + 1) s'
-  | IMapBase.Panic => Gen.mapIterator_Close pool_Put (gmap s) (enc_it p) (sheap s) = GoPanic
+  | IMapBase.Panic => Gen.mapIterator_Close pool_Put (gmap s) (enc_it p) (sheap lg s) = GoPanic
   | IMapBase.NoFuel => True
   end.
 Proof.
   intros Wi Hb Ea. pose proof Wi as (W & Hi & R & HB). pose proof W as (Wc & Hl & Hv).
   pose proof (alookup_in _ _ _ _ Hi Ea) as Hp.
-  pose proof (gen_Close_refines pool_Put Hput (encv (vals s)) (ptr (last s)) (heap_of s) (head s) (pool s) p
+  pose proof (gen_Close_refines lg pool_Put Hput (encv (vals s)) (ptr (last s)) (heap_of s) (head s) (pool s) p
                 B Wc Hp R ltac:(lia)) as G.
   pose proof (i_release_pres (heap_of s) (head s) (pool s) p B) as P.
   unfold i_close, core_of. rewrite Ea. cbn [deref IMapBase.bind].
@@ -262,9 +264,9 @@ Qed.
 Theorem gen_First_refines s B : winv B s -> B + 3 <= 2 ^ 62 ->
   match i_first s with
   | IMapBase.Ok (s', o) => exists k ok,
-      Gen.Map_First pool_Put (gmap s) (sheap s) = Ok ((gmap s', k, ok), sheap s') /\
+      Gen.Map_First pool_Put (gmap s) (sheap lg s) = Ok ((gmap s', k, ok), sheap lg s') /\
       o = first_out k ok /\ iters s' = iters s /\ allocs s' = allocs s /\ winv (B + 3) s'
-  | IMapBase.Panic => Gen.Map_First pool_Put (gmap s) (sheap s) = GoPanic
+  | IMapBase.Panic => Gen.Map_First pool_Put (gmap s) (sheap lg s) = GoPanic
   | IMapBase.NoFuel => True
   end.
 Proof.
@@ -362,26 +364,26 @@ Proof. intros H (W & Hi & R & HB). split; [exact W|]. split; [exact Hi|]. split;
 Theorem gen_step_refines ch s x B : winv B s -> B + 3 <= 2 ^ 62 -> ~ In (last s) (pool s) ->
   match i_do ch s x with
   | IMapBase.Ok (s', o) =>
-      gen_step ch (gstate s) x (sheap s) = Ok ((gstate s', o), sheap s') /\ winv (B + 3) s'
-  | IMapBase.Panic => gen_step ch (gstate s) x (sheap s) = GoPanic
+      gen_step ch (gstate s) x (sheap lg s) = Ok ((gstate s', o), sheap lg s') /\ winv (B + 3) s'
+  | IMapBase.Panic => gen_step ch (gstate s) x (sheap lg s) = GoPanic
   | IMapBase.NoFuel => True
   end.
 Proof.
   intros Wi Hb Hlp. pose proof Wi as (W & Hi & R & HB).
   destruct x as [k v|k|k| | |i|i|i|i]; cbn [i_do]; unfold gen_step, gstate.
   - (* Add *)
-    pose proof (gen_Add_refines pool_Get Hget s k v (ch (allocs s)) W Hlp) as E. call_with E.
+    pose proof (gen_Add_refines lg pool_Get Hget s k v (ch (allocs s)) W Hlp) as E. call_with E.
     destruct (i_add s k v (ch (allocs s))) as [[s' o]| |] eqn:Ea; cbn [lift fst snd]; [|reflexivity|exact I].
     destruct (i_add_pres _ _ _ _ _ _ _ Wi Ea) as (Hit & Hsh & W'). rewrite Hit.
     split; [|eapply winv_mono; [|exact W']; lia].
     destruct Hsh as [[-> ->]|[-> ->]]; reflexivity.
   - (* Remove *)
-    pose proof (gen_Remove_refines pool_Put Hput s k W) as E. call_with E.
+    pose proof (gen_Remove_refines lg pool_Put Hput s k W) as E. call_with E.
     destruct (i_remove s k) as [[s' o]| |] eqn:Ea; cbn [lift fst snd]; [|reflexivity|exact I].
     destruct (i_remove_pres _ _ _ _ _ Wi Ea) as (Hit & Hal & -> & W'). rewrite Hit, Hal.
     split; [reflexivity|eapply winv_mono; [|exact W']; lia].
   - (* Get *)
-    pose proof (gen_Get_refines s k W) as E. call_with E.
+    pose proof (gen_Get_refines lg s k W) as E. call_with E.
     destruct (i_get s k) as [[s' o]| |] eqn:Ea; cbn [lift fst snd]; [|reflexivity|exact I].
     destruct (i_get_shape _ _ _ _ Ea) as (-> & r & ->).
     split; [destruct r; reflexivity|eapply winv_mono; [|exact Wi]; lia].
@@ -434,7 +436,7 @@ Fixpoint gen_run (ch : nat -> option nat) (g : gst) (ops : list op) (h : heap) :
 
 (* the program: m := NewMap(); then the calls *)
 Definition gen_run_map (ch : nat -> option nat) (ops : list op) : list out :=
-  match Gen.NewMap (gheap [] []) with
+  match Gen.NewMap (gheap lg [] []) with
   | Ok (im, h) => gen_run ch (im, [], 0%nat) ops h
   | GoPanic => [OutPanic]
   | NoFuel => [OutNoFuel]
@@ -460,7 +462,7 @@ Qed.
 Theorem gen_run_refines ch : forall h open s o B,
   R s o -> (forall y, In y open <-> In y (map fst (opos o))) -> wf_from open h = true ->
   winv B s -> B + 3 * Z.of_nat (length h) <= 2 ^ 62 ->
-  gen_run ch (gstate s) h (sheap s) = fst (run (i_step ch) s h).
+  gen_run ch (gstate s) h (sheap lg s) = fst (run (i_step ch) s h).
 Proof.
   induction h as [|x t IH]; intros open s o B HR Hs Hwf Wi Hb; [reflexivity|].
   cbn [length] in Hb. cbn [gen_run run].
@@ -493,7 +495,7 @@ Qed.
 Theorem gen_imap_refines_omap : forall ops ch, wf_hist ops -> Z.of_nat (length ops) < 2 ^ 60 ->
   gen_run_map ch ops = run_omap ops.
 Proof.
-  intros ops ch Hwf Hlen. unfold gen_run_map. rewrite gen_NewMap_refines.
+  intros ops ch Hwf Hlen. unfold gen_run_map. rewrite (gen_NewMap_refines lg).
   change (gmap i_new, @nil (Z * Gen.mapIterator), 0%nat) with (gstate i_new).
   rewrite (gen_run_refines ch ops [] i_new o_new 0 R_init); [|cbn; tauto|exact Hwf|exact winv_init|].
   - rewrite <- (imap_refines_omap ops ch Hwf). reflexivity.
@@ -520,7 +522,7 @@ Fixpoint gen_final (ch : nat -> option nat) (g : gst) (ops : list op) (h : heap)
   end.
 
 Definition gen_final_map (ch : nat -> option nat) (ops : list op) : option (gst * heap) :=
-  match Gen.NewMap (gheap [] []) with
+  match Gen.NewMap (gheap lg [] []) with
   | Ok (im, h) => gen_final ch (im, [], 0%nat) ops h
   | _ => None
   end.
@@ -535,8 +537,8 @@ Qed.
 Theorem gen_final_refines ch : forall h open s o B,
   R s o -> (forall y, In y open <-> In y (map fst (opos o))) -> wf_from open h = true ->
   winv B s -> B + 3 * Z.of_nat (length h) <= 2 ^ 62 ->
-  gen_final ch (gstate s) h (sheap s) =
-    Some (gstate (snd (run (i_step ch) s h)), sheap (snd (run (i_step ch) s h))) /\
+  gen_final ch (gstate s) h (sheap lg s) =
+    Some (gstate (snd (run (i_step ch) s h)), sheap lg (snd (run (i_step ch) s h))) /\
   winv (B + 3 * Z.of_nat (length h)) (snd (run (i_step ch) s h)).
 Proof.
   induction h as [|x t IH]; intros open s o B HR Hs Hwf Wi Hb.
@@ -560,9 +562,9 @@ Qed.
 
 Theorem gen_final_map_refines : forall ops ch, wf_hist ops -> Z.of_nat (length ops) < 2 ^ 60 ->
   let sf := final (i_step ch) i_new ops in
-  gen_final_map ch ops = Some (gstate sf, sheap sf) /\ winv (3 * Z.of_nat (length ops)) sf.
+  gen_final_map ch ops = Some (gstate sf, sheap lg sf) /\ winv (3 * Z.of_nat (length ops)) sf.
 Proof.
-  intros ops ch Hwf Hlen sf. unfold gen_final_map. rewrite gen_NewMap_refines.
+  intros ops ch Hwf Hlen sf. unfold gen_final_map. rewrite (gen_NewMap_refines lg).
   change (gmap i_new, @nil (Z * Gen.mapIterator), 0%nat) with (gstate i_new).
   apply (gen_final_refines ch ops [] i_new o_new 0 R_init); [cbn; tauto|exact Hwf|exact winv_init|].
   rewrite two62'. change (2 ^ 60) with 1152921504606846976 in Hlen. lia.
@@ -572,11 +574,11 @@ End Run.
 
 (** * Closed forms: the literal pool of IM_GenVocab.v *)
 
-Definition lit_run (ch : nat -> option nat) (ops : list op) : list out := gen_run_map lit_Put lit_Get ch ops.
+Definition lit_run (ch : nat -> option nat) (ops : list op) : list out := gen_run_map [] lit_Put lit_Get ch ops.
 
 Theorem gen_imap_refines_omap_lit : forall ops ch, wf_hist ops -> Z.of_nat (length ops) < 2 ^ 60 ->
   lit_run ch ops = run_omap ops.
-Proof. exact (gen_imap_refines_omap lit_Put lit_Get lit_put_spec lit_get_spec). Qed.
+Proof. exact (gen_imap_refines_omap [] lit_Put lit_Get lit_put_spec lit_get_spec). Qed.
 
 (* the D1 witness and the running example of Properties/C10.v through the generated code *)
 Definition d1_ops : list op := [OAdd 1 11; OAdd 2 12; ONewIter 7; ORemove 1; OClose 7; OFirst].
